@@ -29,7 +29,10 @@ def main():
         from checks import common
 
         common.install_watchdog()
-        return mod.main(sys.argv[2:])
+        try:
+            return mod.main(sys.argv[2:])
+        finally:
+            common.remove_watchdog()  # the interpreter restores SIGALRM's default action while it shuts down
     except SystemExit:
         raise
     except BaseException:
